@@ -185,6 +185,11 @@ func normalizeBase(in string) string {
 	if u.Scheme != "" {
 		if path.IsAbs(u.Path) || u.Scheme != fileScheme {
 			// this is absolute or explicitly not a local file: we're good
+			if u.Scheme == fileScheme {
+				// any query component is irrelevant for a local file
+				u.RawQuery = ""
+				u.ForceQuery = false
+			}
 			return u.String()
 		}
 	}
@@ -198,5 +203,6 @@ func normalizeBase(in string) string {
 	u.Scheme = fileScheme
 	u.Path = absPath(u.Path) // platform-dependent
 	u.RawQuery = ""          // any query component is irrelevant for a base
+	u.ForceQuery = false
 	return u.String()
 }
